@@ -8,7 +8,8 @@ from ..core import Run, run_cases
 from . import cells_drivers  # noqa: F401
 
 TRACE = "CellsTrace"
-CELLNAMES = ["cell1", "cell2", "A", "b.c", "cell-3_x", "with space", "10", "Z9", "sample.1.cool", "é"]
+CELLNAMES = ["cell1", "cell2", "A", "b.c", "cell-3_x", "with space", "10", "Z9", "sample.1.cool", "é",
+             "rep1", "rep1 ", " lead", "tab\t"]          # names that differ only in surrounding white space are different names
 
 
 def cases(tier, seed):
@@ -35,7 +36,9 @@ def cases(tier, seed):
                             "form": ["frame", "iter", "dict"][F_h("m3@32", 3)], "open": ["uri", "handle"][F_h("m2@32", 2)],
                             "ordered": F_h("m4@33", 4) != 2, "mergebuf": rng.choice([1, 3, 10 ** 6]),
                             # every 5th: float64 counts asked for through dtypes= (values are multiples of 1/4)
-                            **({"scale": 4} if F_h("m5@35", 5) == 1 else {}), "labels": ["default", "perm", "offset"][F_h("m3@35", 3)]}
+                            **({"scale": 4} if F_h("m5@35", 5) == 1 else {}), "labels": ["default", "perm", "offset"][F_h("m3@35", 3)],
+                            # the path already holds a single-cell file of an EARLIER run with other cells (and one of the same name)
+                            "prior_cells": [] if F_h("prior", 3) else ["old1", "old 2", cn[0]]}
 
 
 def run(tier, seed, only_case=None):
